@@ -198,3 +198,54 @@ def set_index_pairs(ctx: Ctx) -> None:
     n += 1
     (ctx.bad if problems else ctx.ok)(R, u, u.node, '; '.join(problems) or 'index values and index names are put in front of blocks and column labels, in the same order', key='unset_index')
     ctx.require(n >= 8, 'set_index / set_index_hierarchy / unset_index result paths')
+
+
+def relabel_shift_pairs(ctx: Ctx) -> None:
+    R = 'E.pair[relabel-shift]'
+    ctx.rule(R, 'relabel_shift_out moves levels of a hierarchy into the data: the arrays moved are `<level table>._extract(column_key=depth_level)` (in the order of the '
+             'caller\'s depth_level) and the labels they receive are read from the level names by iterating that same depth_level in that same order '
+             '(`names[i] for i in depth_level`, or `names[depth_level]` for an integer); the levels that remain keep ascending order on both sides '
+             '(`_drop_blocks(column_key=depth_level)` and the names whose position is not in depth_level); new labels come first, in front of the existing ones, as the '
+             'new blocks come first', floor=5)
+    f = ctx.prog.method('Frame', 'relabel_shift_out', inherited=False)
+    key_p = f.params[1] if len(f.params) > 1 else 'depth_level'
+    ex = roles.Expander(f.node)
+    # data side
+    ext = [c for c in walk_local(f.node) if isinstance(c, ast.Call) and isinstance(c.func, ast.Attribute) and c.func.attr == '_extract' and kwarg(c, 'column_key') is not None
+           and kwarg(c, 'row_key') is None]
+    good = len(ext) == 1 and norm(kwarg(ext[0], 'column_key')) == key_p
+    (ctx.ok if good else ctx.bad)(R, f, ext[0] if ext else f.node, f'moved arrays are selected with column_key={key_p}' if good else 'the moved arrays are not selected with the caller\'s depth_level', key='moved-arrays')
+    drop = [c for c in walk_local(f.node) if isinstance(c, ast.Call) and isinstance(c.func, ast.Attribute) and c.func.attr == '_drop_blocks']
+    good = len(drop) == 1 and norm(kwarg(drop[0], 'column_key')) == key_p
+    (ctx.ok if good else ctx.bad)(R, f, drop[0] if drop else f.node, f'remaining levels are what is left after dropping column_key={key_p}' if good else 'the remaining levels are not the complement of depth_level', key='remaining-arrays')
+    # label side: the first operand of chain(...) in the from_labels call, over all its definitions
+    chains = [c.args[0] for c in walk_local(f.node) if isinstance(c, ast.Call) and isinstance(c.func, ast.Attribute) and c.func.attr == 'from_labels' and c.args
+              and isinstance(c.args[0], ast.Call) and call_name(c.args[0]) == 'chain' and len(c.args[0].args) == 2]
+    ctx.require(len(chains) >= 2, 'relabel_shift_out chains new labels in front of the existing ones (per axis)')
+    first_names = {c.args[0].id for c in chains if isinstance(c.args[0], ast.Name)}
+    ctx.require(len(first_names) == 1, 'one local carries the new labels')
+    nl = next(iter(first_names))
+    defs = [a for a in walk_local(f.node) if isinstance(a, ast.Assign) and norm(a.targets[0]) == nl]
+    n_d = 0
+    for a in defs:
+        v = a.value
+        if isinstance(v, ast.Call) and call_name(v) == 'tuple' and len(v.args) == 1:
+            v = v.args[0]
+        n_d += 1
+        if isinstance(v, (ast.GeneratorExp, ast.ListComp)):
+            g0 = v.generators[0]
+            good = len(v.generators) == 1 and not g0.ifs and norm(g0.iter) == key_p and isinstance(g0.target, ast.Name) \
+                and isinstance(v.elt, ast.Subscript) and isinstance(v.elt.slice, ast.Name) and v.elt.slice.id == g0.target.id
+            (ctx.ok if good else ctx.bad)(R, f, a, f'labels read by iterating {key_p} in order' if good else
+                                          f'the new labels are built as `{norm(v)[:70]}`: not by iterating {key_p} in its own order, while the arrays come in that order — '
+                                          'for a depth_level that is not ascending, level values sit under the wrong label', key=f'labels#{n_d}')
+        elif isinstance(v, ast.Tuple) and len(v.elts) == 1 and isinstance(v.elts[0], ast.Subscript):
+            good = norm(v.elts[0].slice) == key_p
+            (ctx.ok if good else ctx.bad)(R, f, a, f'single label names[{key_p}]' if good else f'single label `{norm(v)}` is not names[{key_p}]', key=f'labels#{n_d}')
+        else:
+            ctx.ok(R, f, a, f'depth-1 index: `{norm(v)[:50]}`', key=f'labels#{n_d}')
+    # new labels and new blocks both in front
+    blocks_front = [c for c in walk_local(f.node) if isinstance(c, ast.Call) and call_name(c) == 'chain' and len(c.args) == 2 and norm(c.args[1]) == 'self._blocks._blocks']
+    good = bool(blocks_front) and all(isinstance(c.args[0], ast.Name) for c in blocks_front)
+    (ctx.ok if good else ctx.bad)(R, f, blocks_front[0] if blocks_front else f.node, 'moved arrays are put in front of self\'s own blocks, as the new labels are put in front' if good else
+                                  'the moved arrays are not put in front of self\'s own blocks', key='front')
